@@ -124,14 +124,16 @@ impl<'a> AsciiDecLit<'a> {
         matches!(self.first(), Some(c) if c.wrapping_sub(b'0') < 10)
     }
 
-    fn skip_leading_zeroes(&mut self) -> &mut Self {
+    /// Skips leading zeroes and returns the number of zeroes skipped.
+    fn skip_leading_zeroes(&mut self) -> usize {
+        let start_len = self.len();
         while self.first_eq(b'0') {
             // Safety: safe because of condition above!
             unsafe {
                 self.skip_1();
             };
         }
-        self
+        start_len - self.len()
     }
 
     // Read 8 bytes as u64 (little-endian).
@@ -241,7 +243,7 @@ pub fn str_to_dec(lit: &str) -> Result<(i128, isize), ParseDecimalError> {
     if lit.is_empty() {
         return Err(ParseDecimalError::Invalid);
     }
-    lit.skip_leading_zeroes();
+    let n_leading_zeroes = lit.skip_leading_zeroes();
     if lit.is_empty() {
         // There must have been atleast one zero. Ignore sign.
         return Ok((0, 0));
@@ -259,7 +261,8 @@ pub fn str_to_dec(lit: &str) -> Result<(i128, isize), ParseDecimalError> {
         }
     }
     let n_digits = n_int_digits + n_frac_digits;
-    if n_digits == 0 {
+    // Leading zeroes are digits, too ("0.", "0e5").
+    if n_digits == 0 && n_leading_zeroes == 0 {
         return Err(ParseDecimalError::Invalid);
     }
     // check for overflow
